@@ -627,10 +627,27 @@ def r_nan(c):
             "copy")
 
 
+def r_handwritten_hash_cache(c):
+    """what holds for the generated hash of the array classes (R04-PICKLE) holds for
+    every hand-written one: a __hash__ that stores its value on the instance belongs
+    to a class whose __getstate__ drops it.  Hashes of strings depend on the hash seed;
+    a cached one that travels in a pickle makes an object equal to a rebuilt one and
+    hash differently in the process that loads it"""
+    from pta.rules.common import check_no_pickled_hash_cache
+    n = check_no_pickled_hash_cache(
+        c, "R04-PICKLE", ["pytato"],
+        "after unpickling under another PYTHONHASHSEED the object is equal to a rebuilt "
+        "one but hashes differently: dict/set lookups and deduplication miss")
+    c.ok("R04-PICKLE", "pytato.*", f"{n} classes with a hand-written __hash__ scanned",
+         "pytato/", nontrivial=False)
+    if n < 3:
+        raise AnalysisError(f"only {n} hand-written __hash__ methods found (floor 3)")
+
+
 SPEC = Spec(
     prop="C04",
     rules=[r_exhaustive, r_eq_field, r_pairing, r_memo_and_identity, r_hash_order,
-           r_pickle, r_state, r_foreign_predicate, r_nan],
+           r_pickle, r_state, r_foreign_predicate, r_nan, r_handwritten_hash_cache],
     floors={"R04-EXHAUSTIVE": 20, "R04-EQ-FIELD": 74, "R04-HASH-SUBSET": 67,
             "R04-PAIRING": 80, "R04-PICKLE": 5, "R04-HASH-ORDER": 2, "R04-NEQ": 16,
             "R04-MEMO-KEY": 1, "R04-HASH-IDENTITY": 1, "R04-STATE": 3, "R04-NAN": 1},
@@ -659,7 +676,8 @@ SPEC = Spec(
         "mutated): an id()-keyed memo that survives its objects answers for "
         "others (canary fixture). R04-NAN: the test that routes NaN scalars to the "
         "symbolic NaN node is a plain isnan of the scalar, not narrowed to some "
-        "scalar types."),
+        "scalar types. R04-PICKLE also: every hand-written __hash__ of the package "
+        "that stores its value on the instance sits in a class with a __getstate__."),
     not_decided=(
         "Transitivity through third-party __eq__ of leaf values (numpy dtypes, "
         "loopy translation units, pymbolic expressions); that every pair of "
